@@ -60,6 +60,13 @@ def build_site(params):
         pages['/hidden1'] = {'links': []}
         pages['/hidden2'] = {'links': []}
         pages['/nfimg.png'] = {'body': 'PNG', 'ctype': 'image/png'}
+    if params.get('redir'):
+        # allowed URLs that redirect into a disallowed path of the same origin and of
+        # another origin (whose robots.txt has to be obtained, and obeyed, first)
+        pages['/'] = {'links': list(links_for(params)) + ['/go1', '/go2', '/go3']}
+        pages['/go1'] = {'redirect': [302, '/priv/x']}
+        pages['/go2'] = {'redirect': [301, 'http://b.test/priv/y']}
+        pages['/go3'] = {'redirect': [307, 'http://b.test/open']}
     robots_text = rb
 
     def robots_page(text):
@@ -83,6 +90,9 @@ def build_site(params):
     else:
         hosts['a.test']['/robots.txt'] = robots_page(rb)
     starts = ['http://a.test/']
+    if params.get('redir'):
+        hosts['b.test'] = {'/priv/y': {'links': []}, '/open': {'links': []},
+                           '/robots.txt': robots_page(ROBOTS['prefix'])}
     if params.get('origins', 1) >= 2:
         # same host other port, and another host: each has its own (different) file
         p2 = {'/': {'links': ['/priv/x', '/open']}, '/priv/x': {'links': []},
@@ -273,6 +283,9 @@ def jobs(tier, seed):
         for conc in (1, 2) if tier == 'quick' else (1, 2, 3):
             js.append(dict(params=dict(robots=rb, origins=2, conc=conc),
                            budget=0 if tier == 'quick' or conc == 3 else 1, prefix=[]))
+    for rb in ('prefix', 'absent'):
+        for conc in (1,) if tier == 'quick' else (1, 2):
+            js.append(dict(params=dict(robots=rb, redir=True, conc=conc), budget=0, prefix=[]))
     for nf in ('nofollow', 'NOINDEX, NoFollow', 'none', 'index, follow'):
         js.append(dict(params=dict(robots='absent', nofollow=nf, conc=1), budget=0,
                        prefix=[]))
